@@ -186,6 +186,22 @@ EXPECT = {
    "return self._unary_template(np.sqrt)"
   ]
  ],
+ "pbox_abc.Staircase.pow": [
+  [
+   "self",
+   "other",
+   "dependency"
+  ],
+  [
+   "from .operation import frechet_op, vectorized_cartesian_op",
+   "if isinstance(other, Number):\n    if other < 0 and self.lo <= 0 <= self.hi:\n        raise ZeroDivisionError('negative power of a p-box whose support contains zero')\n    if self.straddles_zero():\n        from pyuncertainnumber import pba\n        itvls = self.to_interval()\n        response = itvls ** other\n        return pba.stacking(response)\n    else:\n        return pbox_number_ops(self, other, operator.pow)",
+   "if is_un(other):\n    other = convert_pbox(other)",
+   "match dependency:\n    case 'f':\n        nleft, nright = frechet_op(self, other, operator.pow)\n    case 'p':\n        nleft = self.left ** other.left\n        nright = self.right ** other.right\n    case 'o':\n        nleft = self.left ** np.flip(other.right)\n        nright = self.right ** np.flip(other.left)\n    case 'i':\n        nleft = vectorized_cartesian_op(self.left, other.left, operator.pow)\n        nright = vectorized_cartesian_op(self.right, other.right, operator.pow)",
+   "nleft.sort()",
+   "nright.sort()",
+   "return Staircase(left=nleft, right=nright)"
+  ]
+ ],
  "pbox_abc.Staircase.reciprocal": [
   [
    "self"
@@ -258,6 +274,12 @@ Definition gen_precip (p : pb) : res pb :=
 (* pbox_number_ops: f(left, n), f(right, n), both sorted (lists) *)
 Definition gen_pnum (f : N -> N -> N) (p : pb) (c : N) : res pb :=
   gen_mk_staircase_gen true (nsort N (map (fun x => f x c) (fst p))) (nsort N (map (fun x => f x c) (snd p))).
+(* Staircase.pow, isinstance(other, Number): other < 0 and lo <= 0 <= hi raises ZeroDivisionError; straddles_zero() (min(left) < 0 < max(right))
+   => interval powers + stacking (route0, not translated); else pbox_number_ops(self, other, operator.pow) *)
+Definition gen_ppow (powf : N -> N -> N) (route0 : pb -> N -> res pb) (p : pb) (c : N) : res pb :=
+  if nltb N c nzero && (nleb N (nth0 N (fst p) 0) nzero && nleb N nzero (lastn N (snd p))) then Raise ZeroDivision
+  else if nltb N (minl N (fst p)) nzero && nltb N nzero (maxl N (snd p)) then route0 p c
+  else gen_pnum powf p c.
 (* Staircase._unary_template: f(left), f(right) (arrays) *)
 Definition gen_punary (f : N -> N) (p : pb) : res pb := gen_mk_staircase_gen false (map f (fst p)) (map f (snd p)).
 (* Staircase.env: np.minimum(left, left'), np.maximum(right, right') (arrays) *)
